@@ -1,1 +1,1 @@
-version = "dev"  # this should be overwritten by setuptools_scm
+version = "0.1.dev1"  # this should be overwritten by setuptools_scm
